@@ -26,7 +26,7 @@ fi
 rsync -a --delete --exclude 'sim/target' --exclude '.git' --exclude 'replays' --exclude 'evidence' /verif/ "$ROOT/verif/"
 rc=0
 for p in "$@"; do
-    ( cd "$ROOT/verif" && FPSIM_REPO="$ROOT/repo" CARGO_TARGET_DIR="$ROOT/target" ./check "$p" "${TIER:-quick}" 2>&1 | cut -c1-400 | grep -v "^  class" | head -n 12 )
+    ( cd "$ROOT/verif" && FPSIM_REPO="$ROOT/repo" CARGO_TARGET_DIR="$ROOT/target" ./check "$p" "${TIER:-quick}" 2>&1 | cut -c1-400 | grep -v "^  class" | head -n 30 )
     r=${PIPESTATUS[0]}
 done
 git -C /repo worktree remove --force "$ROOT/repo"
